@@ -1376,6 +1376,79 @@ func checkC19(w *World, c *Check, tier string) {
 		} else {
 			c.ok("C19.set", "Set:append-when-missing", w.FuncPos(set), "appends only when no entry matched")
 		}
+		// tag as given: the entry Append (and through it Set) adds carries the tag it was handed, not a rewriting of it
+		// ("accept POSIX spelling: _ becomes -"): Get with the tag that was Set would find nothing, and every further Set
+		// of that tag appends again
+		if app := w.Method("NaturalLanguageValues", "Append"); app != nil && app.Blocks != nil {
+			how := ""
+			var pos ssa.Instruction
+			refIdx := -1
+			if lrv := w.Named("LangRefValue"); lrv != nil {
+				if st, ok := lrv.Underlying().(*types.Struct); ok {
+					for i := 0; i < st.NumFields(); i++ {
+						if st.Field(i).Name() == "Ref" {
+							refIdx = i
+						}
+					}
+				}
+			}
+			var entryRefs func(v ssa.Value, d int) []ssa.Value
+			entryRefs = func(v ssa.Value, d int) []ssa.Value {
+				if v == nil || d > 4 || refIdx < 0 {
+					return nil
+				}
+				var out []ssa.Value
+				switch x := unwrap(v).(type) {
+				case *ssa.UnOp:
+					if al, ok := x.X.(*ssa.Alloc); ok && x.Op == token.MUL && al.Referrers() != nil {
+						for _, r := range *al.Referrers() {
+							if fa, isFA := r.(*ssa.FieldAddr); isFA && fa.Field == refIdx && fa.Referrers() != nil {
+								for _, rr := range *fa.Referrers() {
+									if st, isSt := rr.(*ssa.Store); isSt && st.Addr == ssa.Value(fa) {
+										out = append(out, st.Val)
+									}
+								}
+							}
+						}
+						for _, st := range storesTo(al) {
+							out = append(out, entryRefs(st.Val, d+1)...)
+						}
+					}
+				case *ssa.Call:
+					if cal := x.Common().StaticCallee(); cal != nil && w.InPkg(cal) && cal.Blocks != nil {
+						for _, rb := range returnBlocks(cal) {
+							ret := rb.Instrs[len(rb.Instrs)-1].(*ssa.Return)
+							for _, r := range ret.Results {
+								out = append(out, entryRefs(r, d+1)...)
+							}
+						}
+					}
+				}
+				return out
+			}
+			for _, fn := range w.Reach([]*ssa.Function{app}, func(f *ssa.Function) bool { return f.Name() == "Equals" }) {
+				for _, call := range callsIn(fn) {
+					var elems []ssa.Value
+					if bi, isB := call.Common().Value.(*ssa.Builtin); isB && bi.Name() == "append" && len(call.Common().Args) == 2 {
+						elems, _ = variadicElems(call.Common().Args[1])
+					} else if calleeNamed(call, "Add") && len(call.Common().Args) >= 2 {
+						elems = call.Common().Args[1:]
+					}
+					for _, e := range elems {
+						for _, rv := range entryRefs(e, 0) {
+							if h := textRewrittenBy(w, rv); h != "" && how == "" {
+								how, pos = h, call
+							}
+						}
+					}
+				}
+			}
+			if how != "" {
+				c.bad("C19.set", "Append:tag-as-given", w.InstrPos(pos), fmt.Sprintf("the entry Append adds carries a rewriting of the tag it was given (%s), not the tag itself: after Set(tag, v) on a tag the rewriting changes, Get(tag) finds nothing and every further Set appends another entry", how))
+			} else {
+				c.ok("C19.set", "Append:tag-as-given", w.FuncPos(app), "the appended entry carries the tag as given")
+			}
+		}
 		// frame: Set, and every package function it hands its receiver to, changes the list only by overwriting an entry
 		// in place or by growing it by one entry at the end: the list header is never re-sliced, shrunk or spliced, and
 		// no entry is copied over another (a clean-up of "leftover" duplicates moves the last entry into the hole: the
